@@ -63,7 +63,8 @@ decode(data: bytes, cells=True, strings=True) -> dict
      "f": {"present": bool,"t","si": int (-1),"ref","text"},
      "kind": "blank"|"num"|"text"|"bool"|"err"|"bad", "value": str, "num_bits": 16 hex digits ("" unless num),
      "sst_index": int (-1 unless t="s"), "formula": str (shared formulas expanded; "" if none),
-     "has_formula": bool}
+     "has_formula": bool, "shared_master": reference of the master cell if this cell is a child of a shared
+     formula (no text of its own), else ""}
 
 Package(data)                                        lower level, for callers that want their own walk
     .ok .error .entries .names
@@ -656,6 +657,7 @@ def decode_sheet(pkg, part, sst_items, want_cells=True):
                              "text": (f.text or "") if f is not None else ""}}
                 kind, value, bits, sidx = decode_cell(raw, sst_items)
                 formula = raw["f"]["text"]
+                shared_master = ""
                 if raw["f"]["present"] and raw["f"]["t"] == "shared" and raw["f"]["si"] >= 0:
                     si = raw["f"]["si"]
                     if formula != "":
@@ -663,8 +665,9 @@ def decode_sheet(pkg, part, sst_items, want_cells=True):
                     elif si in masters:
                         mr, mc, mt = masters[si]
                         formula = translate_formula(mt, crow - mr, ccol - mc)
+                        shared_master = num_to_col(mc) + str(mr)
                 raw.update({"kind": kind, "value": value, "num_bits": bits, "sst_index": sidx, "formula": formula,
-                            "has_formula": raw["f"]["present"]})
+                            "has_formula": raw["f"]["present"], "shared_master": shared_master})
                 rec["cells"].append(raw)
             sh["rows"].append(rec)
     # ---- the other collections
